@@ -12,10 +12,12 @@ Where things are:
   ConnC04Inv5.lean   `Rel`: nothing retained is lost
   ConnC04Inv6–9.lean `Tk`: at most one step of the negotiation is pending, none while stream management is on
   ConnC04Inv10.lean  `QO`: library elements are queued in the XEP-0198 class; only user items are counted
+  ConnC04Inv13.lean  `QT`: what is queued stays queued until written, up to the next `_conn_reset` (D52)
   ConnC04Inv11–12.lean `Rs`: `_sm_enable` is not reached while a session id is held or a resumption is possible
 -/
 import Strophe.Lemmas.ConnC04Inv1
 import Strophe.Lemmas.ConnC04Inv12
+import Strophe.Lemmas.ConnC04Inv13
 
 namespace Strophe.Lemmas.ConnC04
 open Strophe Strophe.Conn
